@@ -26,7 +26,7 @@ FLAVORS = {
     "san": (["-O1", "-g", "-fno-omit-frame-pointer", "-fsanitize=address,undefined", "-fsanitize-coverage=trace-pc-guard"],
             ["-O1", "-g", "-fno-omit-frame-pointer", "-fsanitize=address", "-DSIM_SANITIZE"],
             ["-fsanitize=address,undefined"]),
-    "plain": (["-O2", "-g", "-fsanitize-coverage=trace-pc-guard"], ["-O2", "-g"], []),
+    "plain": (["-O2", "-gdwarf-4", "-fsanitize-coverage=trace-pc-guard"], ["-O2", "-gdwarf-4"], []),   # DWARF 4: valgrind 3.19 cannot read clang's DWARF 5
     "own": (["-O1", "-g", "-fno-omit-frame-pointer", "-fsanitize=address,undefined", "-fsanitize-coverage=trace-pc-guard,trace-loads,trace-stores"],
             ["-O1", "-g", "-fno-omit-frame-pointer", "-fsanitize=address", "-DSIM_SANITIZE", "-DSIM_OWNERSHIP"],
             ["-fsanitize=address,undefined"]),
@@ -550,6 +550,43 @@ def check_property(prop, tier, seed, replay=None):
     viols, agg, wall = run_search(exe, prop, seed, budget, outdir, workers, extra)
     status = 0
     reported = list(regressions)
+    valgrind_stats = None
+    if prop == "C01" and not MUTANT_RUN or (prop == "C01" and os.environ.get("VERIF_VALGRIND") == "1"):
+        # second net for what ASan/UBSan cannot see (reads of uninitialised memory): a sample of the same plans replayed
+        # on the unsanitised build under valgrind memcheck
+        try:
+            plain = build("plain")
+            n = int(os.environ.get("VERIF_VALGRIND_PLANS", 42 if tier == "quick" else 600))
+            vdir = os.path.join(outdir, "valgrind")
+            os.makedirs(vdir, exist_ok=True)
+
+            def vg(i):
+                plan = os.path.join(vdir, "p%d.plan" % i)
+                subprocess.run([plain, "emit", "--prop", "C01", "--seed", str(seed), "--index", str(i), "--out", plan])
+                r = subprocess.run(["valgrind", "-q", "--error-exitcode=9", "--track-origins=no", plain, "replay", plan], stdout=subprocess.PIPE, stderr=subprocess.PIPE, text=True, errors="replace")
+                return (i, plan, r.returncode, r.stderr)
+            t0v = time.time()
+            with ThreadPoolExecutor(max_workers=workers) as ex:
+                res = list(ex.map(vg, range(n)))
+            bad = [r for r in res if r[2] == 9]
+            valgrind_stats = {"plans_replayed_under_valgrind": n, "errors": len(bad), "wall_s": round(time.time() - t0v, 1)}
+            for (i, plan, rc, err) in bad[:2]:
+                kind = "error"
+                for line in err.splitlines():
+                    m = re.match(r"==\d+== ([A-Z][^=]*)$", line)
+                    if m:
+                        kind = re.sub(r"[^A-Za-z]+", "_", m.group(1).strip())[:50]
+                        break
+                func = "?"
+                for line in err.splitlines():
+                    m = re.match(r"==\d+==\s+(?:at|by) 0x[0-9A-F]+: (\w+) \((?:htp|bstr|Lz)", line)
+                    if m:
+                        func = m.group(1)
+                        break
+                reported.append(dict(oracle="C01.valgrind.%s@%s" % (kind, func), replay=plan, detail=(err.strip().splitlines() or [""])[0][:200], idx=i))
+        except BuildError as e:
+            print("MACHINERY-ERROR: plain build failed\n%s" % e)
+            return 2
     machinery = [v for v in viols if v.get("machinery")]
     by_oracle = {}
     for v in sorted([v for v in viols if not v.get("machinery")], key=lambda v: v["idx"]):
@@ -604,6 +641,7 @@ def check_property(prop, tier, seed, replay=None):
         "unredirected_symbols": info.get("unredirected"),
         "writable_statics": info.get("writable_statics"),
         "violations_reported": reported,
+        "valgrind": valgrind_stats,
         "search_wall_s": round(wall, 2),
         "workers": workers,
     }
